@@ -393,6 +393,18 @@ class World:
                 same = ws.open() if self.variant % 2 else ws.open(mode=a["m"])
             if same is not ws:
                 raise Divergence("open-again-returns-other", "open() on an open workspace did not return the workspace", "C11")
+        elif act == "RemovePair":
+            c = self.ent(a["c"]) if int(a["c"]) else ws.root
+            x, y = int(a["x"]), int(a["y"])
+            first = self.ent(x)
+            if kind(y) == "P":
+                second = [g for g in c.property_groups if g.uid == self.pg2uid[y]][0]
+            else:
+                second = self.ent(y)
+            pair = [first, second] if self.variant % 2 else [second, first]
+            del first, second
+            c.remove_children(pair)
+            del pair
         elif act == "RemoveNotAChild":
             c = self.ent(a["c"])
             x = int(a["x"])
